@@ -50,6 +50,9 @@ var c14Restricted = map[string]string{
 	"log/log.New":       "github.com/traefik/yaegi/stdlib.logNew",
 	"log/log.Default":   "github.com/traefik/yaegi/stdlib.logDefault",
 	"log/log.Logger":    "*stdlib.logLogger",
+
+	"log/slog/slog.NewLogLogger":  "github.com/traefik/yaegi/stdlib.slogNewLogLogger",
+	"log/syslog/syslog.NewLogger": "github.com/traefik/yaegi/stdlib.syslogNewLogger",
 }
 
 func c14ParseExact(s string, ck int) (constant.Value, error) {
